@@ -2024,7 +2024,33 @@ class Builder:
                 out.targets = [Target(nf, afr.ctx.self_cls,
                                       recv_is_self=True)]
                 return out
-            return res
+            # a local of the caller bound once to partial(...) / a bound
+            # method, over names that are bound once themselves:
+            #   on_timeout = partial(self._fill, envelope, results)
+            #   with self._time_limit(on_timeout): ...
+            from .model import walk_own
+            afn = afr.ctx.func
+
+            def nstores(name):
+                return sum(1 for x in walk_own(afn.node)
+                           if isinstance(x, ast.Name) and x.id == name and
+                           isinstance(x.ctx, (ast.Store, ast.Del)))
+            defs = [a for a in walk_own(afn.node)
+                    if isinstance(a, ast.Assign) and len(a.targets) == 1 and
+                    isinstance(a.targets[0], ast.Name) and
+                    a.targets[0].id == arg.id]
+            if arg.id in afn.params or len(defs) != 1 or \
+                    nstores(arg.id) != 1 or not isinstance(
+                        defs[0].value, (ast.Call, ast.Attribute)):
+                return res
+            for x in ast.walk(defs[0].value):
+                if isinstance(x, ast.Name) and isinstance(x.ctx, ast.Load) \
+                        and nstores(x.id) > (0 if x.id in afn.params else 1):
+                    return res
+            if isinstance(defs[0].value, ast.Call) and not ast.unparse(
+                    defs[0].value.func).endswith('partial'):
+                return res
+            arg = defs[0].value
         if isinstance(arg, ast.Call) and arg.args:
             # functools.partial(fn, a, b)(c)  ==  fn(a, b, c)
             synth = ast.Call(func=arg.args[0],
